@@ -7,6 +7,7 @@ import SpiceEv.Cmd.Curve
 import SpiceEv.Cmd.ScenarioRun
 import SpiceEv.Cmd.StrategyUtil
 import SpiceEv.Cmd.Util
+import SpiceEv.Cmd.GenCsv
 open SpiceEv
 
 def allHandlers : List (String × Handler) :=
@@ -14,6 +15,7 @@ def allHandlers : List (String × Handler) :=
   ++ Cmd.ScenarioRun.handlers
   ++ Cmd.StrategyUtil.handlers
   ++ Cmd.Util.handlers
+  ++ Cmd.GenCsv.handlers
 
 def handle (line : String) : String :=
   match (line.splitOn " ").filter (· ≠ "") with
